@@ -9,7 +9,7 @@ import (
 )
 
 func init() {
-	register(&Rule{ID: "C18.k", Doc: "allocation sizes are bounded by the input: a make / strings.Repeat size is constant, the length of something that exists, or a number that was compared against an upper limit before", Floor: 2, Run: c18k})
+	register(&Rule{ID: "C18.k", Doc: "allocation sizes are bounded by the input: a make / strings.Repeat size is constant, the length of something that exists, or a number that was compared against an upper limit before", Floor: 6, Run: c18k})
 }
 
 // c18k: 'never grows without bound'. A size operand of make([]T, n, m), make(map, n) or
